@@ -353,11 +353,11 @@ func (c *cmafIngester) start(ctx context.Context) {
 
 	refRep := c.asset.refRep
 	lastNr := findLastSegNr(c.cfg, c.asset, nowMS, refRep)
-	nextSegNr := lastNr + 1
+	nextSegNr := lastNr + 1 + c.cfg.getStartNr() // lastNr is counted from availabilityStartTime
 	lastSegNrToSend := -1
 
 	if c.nrSegsToSend != nil {
-		lastSegNrToSend = nextSegNr + *c.nrSegsToSend
+		lastSegNrToSend = nextSegNr + *c.nrSegsToSend - 1
 	}
 	if lastSegNrToSend > 0 {
 		c.log.Debug("First and last segment number to send", "first", nextSegNr, "last", lastSegNrToSend)
